@@ -41,7 +41,9 @@ def burst_bytes(b):
                     out += B(wire.TEXT, b"")
                     ends.append((len(out), {"name": "text", "text": ""}))
                 elif shape == 3:          # streamed text terminated by an empty final fragment
-                    out += B(wire.TEXT, p, fin=0) + B(wire.CONT, b"")
+                    out += B(wire.TEXT, p, fin=0)
+                    out += _inner_ping(b, i, ends, out)
+                    out += B(wire.CONT, b"")
                     ends.append((len(out), {"name": "text", "text": p.decode("ascii")}))
                 elif shape == 4:          # text
                     out += B(wire.TEXT, p)
@@ -61,7 +63,9 @@ def burst_bytes(b):
                 p = text.encode("utf-8")
                 if b.get("fragment"):
                     half = len(p) // 2 + (b["text"] % 3)     # the fragment boundary may split a character too
-                    out += B(wire.TEXT, p[:half], fin=0) + B(wire.CONT, p[half:])
+                    out += B(wire.TEXT, p[:half], fin=0)
+                    out += _inner_ping(b, i, ends, out)
+                    out += B(wire.CONT, p[half:])
                 else:
                     out += B(wire.TEXT, p)
                 ends.append((len(out), {"name": "text", "text": text}))
@@ -69,7 +73,9 @@ def burst_bytes(b):
             p = bytes([65 + i % 26]) * size
             if b.get("fragment"):
                 half = size // 2
-                out += B(wire.BINARY, p[:half], fin=0) + B(wire.CONT, p[half:])
+                out += B(wire.BINARY, p[:half], fin=0)
+                out += _inner_ping(b, i, ends, out)
+                out += B(wire.CONT, p[half:])
             else:
                 out += B(wire.BINARY, p)
             ends.append((len(out), {"name": "binary", "data": p}))
@@ -88,6 +94,17 @@ def burst_bytes(b):
                 ends.append((len(out), {"name": "binary", "data": p}))
                 break
     return bytes(out), ends
+
+
+def _inner_ping(b, i, ends, out):
+    """A Ping BETWEEN the fragments of message i (key "inner_ping"; its payload is arbitrary bytes, not text): it is
+    complete, and must be delivered and answered, before the message around it is."""
+    if not b.get("inner_ping"):
+        return b""
+    p = b"\x00\xff\xfe\x80 mid %d" % i
+    frame = B(wire.PING, p)
+    ends.append((len(out) + len(frame), {"name": "ping", "data": p}))
+    return frame
 
 
 class C18(Prop):
@@ -115,8 +132,9 @@ class C18(Prop):
             # per-frame shapes, cycled: 0 binary, 1 empty binary, 2 empty text, 3 text ended by an
             # empty final fragment, 4 text - whichever comes last is the last thing in its read
             "shapes": st.lists(st.integers(0, 4), min_size=1, max_size=5),
-            "exact": st.one_of(st.none(), st.none(), st.integers(1, 3))})
+            "exact": st.one_of(st.none(), st.none(), st.integers(1, 3)), "inner_ping": st.booleans()})
         large = st.fixed_dictionaries({
+            "inner_ping": st.booleans(),
             "kind": st.just("few_large"),
             "sizes": st.lists(st.one_of(st.sampled_from(SIZES), st.integers(1, 70000)), min_size=1, max_size=3),
             "fragment": st.booleans(), "exact": st.one_of(st.none(), st.none(), st.integers(1, 2)),
@@ -138,6 +156,8 @@ class C18(Prop):
             "companion": gen.companion(),
             # calls with unsendable arguments that the application tries (and whose error it catches) on the way
             "noise_calls": gen.noise_calls(),
+            # the application has switched on DEBUG logging for the library
+            "debug_log": gen.debug_log(),
             # connect() options that must not matter here
             "copts_noise": gen.copts_noise(("poll", "ping_timeout", "close_timeout",)),
             # the k-th write after the upgrade request (an automatic Pong) fails without breaking the transport (a send
@@ -150,18 +170,20 @@ class C18(Prop):
             for tls in (False, True, "eager"):
                 for record in (RECORDS if tls is True else [16384]):
                     for size in SIZES:
-                        for fragment in (False, True):
+                        for fragment in (False, True, "ping_inside"):
                             yield {"tls": bool(tls), "eager": tls == "eager", "record": record, "with_reply": False, "chunk": None,
-                                   "bursts": [[4, {"kind": "few_large", "sizes": [size, 10], "fragment": fragment}],
+                                   "bursts": [[4, {"kind": "few_large", "sizes": [size, 10], "fragment": bool(fragment),
+                                                   "inner_ping": fragment == "ping_inside"}],
                                               [4, {"kind": "many_small", "n": 120, "rep": 10, "ping_every": 7}]]}
             # large TEXT messages of 2-, 3- and 4-byte characters, shifted by 0-3 ASCII bytes: every read / record /
             # fragment boundary offset inside a character
             for tls in (False, True):
                 for size in (70000, 140000):
                     for text in range(1, 13):
-                        for fragment in (False, True):
+                        for fragment in (False, True, "ping_inside"):
                             yield {"tls": tls, "eager": False, "record": 16384, "with_reply": False, "chunk": None,
-                                   "bursts": [[4, {"kind": "few_large", "sizes": [size, 40], "fragment": fragment, "text": text}],
+                                   "bursts": [[4, {"kind": "few_large", "sizes": [size, 40], "fragment": bool(fragment), "text": text,
+                                                   "inner_ping": fragment == "ping_inside"}],
                                               [4, {"kind": "many_small", "n": 3, "rep": 2, "ping_every": 2}]]}
             # bursts that are exactly 1x / 2x / 3x the receive buffer, plain and TLS
             for tls in (False, True, "eager"):
